@@ -82,6 +82,8 @@ TraceNext ==
          [] e.ev = "Drop"     -> O!DoDrop(e.b) /\ UNCHANGED tomb
          [] e.ev = "StrayPrepare" -> /\ bad' = O!Flag(FALSE, "C08", "a re-PREPARE reached the backend under a stream id that the proxy had not allocated for it on that connection", 0)
                                      /\ UNCHANGED <<rq, conn, out, tomb>>
+         [] e.ev = "Altered" -> /\ bad' = O!Flag(FALSE, "C03", "the client received, for this request, bytes that are none of the answers a backend gave to it", e.tr)
+                                /\ UNCHANGED <<rq, conn, out, tomb>>
          [] e.ev = "BadFrame" -> O!DoBadFrame(e.r, e.prep) /\ UNCHANGED tomb
          [] e.ev = "SendFail" -> (IF e.r \in tomb THEN UNCHANGED <<rq, conn, out, bad>> ELSE O!DoSendFail(e.r, e.h, e.why)) /\ UNCHANGED tomb
          [] e.ev = "OnClose"  -> O!DoOnClose(e.r, e.h) /\ UNCHANGED tomb
